@@ -149,8 +149,8 @@ class Policy:
     def add_policies(self, sec, ptype, rules):
         """adds policy rules to the model."""
 
-        for rule in rules:
-            if self.has_policy(sec, ptype, rule):
+        for i, rule in enumerate(rules):
+            if self.has_policy(sec, ptype, rule) or rule in rules[:i]:
                 return False
 
         for rule in rules:
